@@ -56,6 +56,20 @@ def check_state(desc, sc, pats, flagsets, res, bash=True, names_tag='std'):
                 res.add_violation(ID, run.viol('no-termination', inp, 'terminates within %d scandir calls' % HORIZON,
                                                {'scandir_calls': nscan}))
                 continue
+            if len(text) % 3 == 0:
+                # the same call with the root given as a directory descriptor lists the same paths
+                fd = os.open(sc.root, os.O_RDONLY | os.O_DIRECTORY)
+                try:
+                    with fsx.ScandirMonitor(HORIZON):
+                        try:
+                            got_fd = sorted(G.glob(text, flags=fscommon.gflags(fs), dir_fd=fd))
+                        except fsx.Horizon:
+                            got_fd = None
+                finally:
+                    os.close(fd)
+                res.n['evaluations'] += 1
+                if got_fd != sorted(got):
+                    res.add_violation(ID, run.viol('dir_fd-differs', inp, sorted(got), got_fd))
             try:
                 ref = refglob.ref_glob(model, ast, fl)
             except OverflowError:
@@ -122,9 +136,9 @@ def check_state(desc, sc, pats, flagsets, res, bash=True, names_tag='std'):
 
 
 ODD_TREE = ['a\\', 'b', 'd\\/', 'd\\/x', '*', '[', 'a]', '!(', '{a,b}', 'a|b', '~', '-a', 'sp ace', 'e/', 'e/a\\', 'e/*', '.h\\',
-            '@(a/', '@(a/b)', '+(x/', '+(x/y)', '@(a/c', 'b\n', 'e/b\n', 'b\n\n']
+            '@(a/', '@(a/b)', '+(x/', '+(x/y)', '@(a/c', 'b\n', 'e/b\n', 'b\n\n', 'zl\xe9/', 'zl\xe9/a', 'zl\xe9/s/', 'zl\xe9/s/z\xe9\xe9']
 ODD_PATS = ['*', '?*', '**', '[!a]*', '*/', '*/*', '**/*', '??', '*\\\\', 'e/*', 'e//*', '*//', 'e//', '**//*', 'e///a\\\\', './/e//*',
-            '?', '[ab]', 'b', 'e/?', '*/[ab]', '**/b', 'b?', '[ab][!a]']
+            '?', '[ab]', 'b', 'e/?', '*/[ab]', '**/b', 'b?', '[ab][!a]', 'zl\xe9/*', 'zl\xe9/*/', 'zl\xe9/s/*', '*/s/z\xe9\xe9', '**/z\xe9\xe9', 'zl\xe9/**']
 ODD_FLAGS = ['GE', 'GEO', 'GDE', 'GDEO', 'GEK', 'E', 'GEOK']
 # without EXTGLOB `@(`, `+(` ... are ordinary text (and `*`, `?` ordinary wildcards) even when a `/` and a `)` follow
 ODD_PATS_NOEXT = ['@(a/b)', '*(a/b)', '?(a/b)', '+(x/y)', '@(a/*', '*/b)', '@(a/b', '!(/b)', '*(*/*)', '@(a/c|b)']
@@ -286,6 +300,13 @@ def replay(v):
             got = sorted(set(refglob.norm(x) for x in real_glob(pp, f2, sc.root)[0] or []))
             return {'violates': got != ind, 'observed': [x.replace(sc.root, '<ROOT>') for x in got]}
         got, nscan = real_glob(inp['pattern'], inp['flags'], sc.root)
+        if v['kind'] == 'dir_fd-differs':
+            fd = os.open(sc.root, os.O_RDONLY | os.O_DIRECTORY)
+            try:
+                got_fd = sorted(G.glob(inp['pattern'], flags=fscommon.gflags(inp['flags']), dir_fd=fd))
+            finally:
+                os.close(fd)
+            return {'violates': got_fd != sorted(got or []), 'observed': got_fd}
         if v['kind'] == 'bytes-twin-differs':
             try:
                 gotb = sorted(os.fsdecode(x) for x in G.glob(os.fsencode(inp['pattern']), flags=fscommon.gflags(inp['flags']),
